@@ -296,6 +296,13 @@ def native_build_and_run(q, wd, values, tag="replay"):
     rc, o, e, dt = run([exe], 120, cwd=wd, env=env, mem_gb=1 << 20)
     text = (o + e)[-3000:]
     if rc == 0:
+        # memory the harness leaves unconstrained is arbitrary for the solver and zero in the first native run:
+        # retry with other fill bytes; only a failing CHECK (not a sanitizer report) counts on these retries
+        for fill in ("255", "165", "1"):
+            env["VERIF_FILL"] = fill
+            rc2, o2, e2, dt2 = run([exe], 120, cwd=wd, env=env, mem_gb=1 << 20)
+            if rc2 == 1 and "REPLAY-FAIL" in o2:
+                return True, "native run (unconstrained harness memory filled with byte %s) exit 1\n%s" % (fill, (o2 + e2)[-3000:]), rc2
         return False, "native run completed without failure\n" + text, rc
     if rc == 3:
         return False, "native run: an assumption does not hold on these values\n" + text, rc
